@@ -10,6 +10,7 @@ mod eof;
 mod fork;
 mod osc;
 mod probe;
+mod raw;
 mod ringbuf;
 mod rms;
 mod sinc;
